@@ -132,14 +132,16 @@ def check_greedy(run, A):
                 if ok_view:
                     alts = unwrap_gamma(recv)
                     def c_ordered(x):
-                        # ndarray.copy() defaults to order='C'; np.copy / np.array default to order='K' (keep the layout of the source)
-                        order = call_arg(x, 1 if is_call_to(x, 'method:copy', 'numpy.copy') else None, 'order')
+                        # ndarray.copy() defaults to order='C'; np.copy / np.array default to order='K' (keep the layout of the source).
+                        # (the raw callee name is needed here: is_call_to identifies the method with the function)
+                        raw = call_parts(x)[0]
+                        order = call_arg(x, 1 if raw in ('method:copy', 'numpy.copy') else None, 'order')
                         ov = const_val(order) if order is not None else NOVAL
-                        if is_call_to(x, 'method:copy'):
+                        if raw == 'method:copy':
                             return order is None or ov == 'C'
-                        if is_call_to(x, 'numpy.copy', 'numpy.array'):
+                        if raw in ('numpy.copy', 'numpy.array'):
                             return ov == 'C'
-                        return is_call_to(x, 'numpy.ascontiguousarray')
+                        return raw == 'numpy.ascontiguousarray'
                     loose = [x for x in alts if not c_ordered(x)]
                     run.check(not loose, 'R-SEL', 'greedy assignment: the flattened matrix is a view (the reshaped matrix is C-contiguous on every path)', fn.loc(fl.node), '',
                               'on some path the matrix that is reshaped to (..., K*K) is not a fresh C-ordered array (e.g. the caller\'s array when a copy flag is off): '
